@@ -7,7 +7,8 @@
    its key columns.  Definitions only.
 
    Mirrors flatten.rs as of fixes 8f24a64 (relational arguments), 592b6f8 (leaving a nested group
-   restores the enclosing partition) and 8d54bf7 (an aggregate outside of any group ends the sort). *)
+   restores the enclosing partition), 8d54bf7 + f809321 (an aggregate ends the sort, outside of groups
+   and inside a group body alike). *)
 From Coq Require Import List Bool Arith.
 Import ListNotations.
 
@@ -55,9 +56,9 @@ Section Flatten.
           | PWin => let '(o, s') := flat f und part s rest in (OWin (pcount part) s :: o, s')
           | POther => flat f und part s rest
           | PAgg =>
-              (* `ends_sort = self.partition.is_none() && Aggregate`: the sort is cleared after the aggregate's own
-                 TransformCall was built -- only outside of any group *)
-              flat f und part (if in_group part then s else empty) rest
+              (* `ends_sort = Aggregate`: the sort is cleared after the aggregate's own TransformCall was built
+                 (8d54bf7; f809321 dropped the `partition.is_none()` condition) *)
+              flat f und part empty rest
           | PGroup n body =>
               let und_b := match n with S _ => true | O => und_i end in
               (* `self.partition.replace(by)`: inside the body the partition is the group's OWN key, whatever group
@@ -104,30 +105,8 @@ Section Flatten.
   Definition carried_of (o : list out) : list (nat * key) :=
     flat_map (fun x => match x with OTake p k | OWin p k => [(p, k)] | OSort _ => [] end) o.
 
-  (* ---- the known classes.
-     F44: an aggregate INSIDE a group body that is not the last transform of that body keeps the sort in effect for
-     what follows it (the code ends the sort only outside of groups).
-     `tame_agg ing p`: no such aggregate in p, where ing = p is (part of) a group body. *)
-  Fixpoint has_agg (fuel : nat) (p : list pitem) : bool :=
-    match fuel with
-    | O => true
-    | S f => existsb (fun i => match i with PAgg => true | PWindow b => has_agg f b | _ => false end) p
-    end.
-
-  Fixpoint tame_agg (fuel : nat) (ing : bool) (p : list pitem) : bool :=
-    match fuel with
-    | O => false
-    | S f =>
-      match p with
-      | [] => true
-      | PAgg :: rest => (negb ing || match rest with [] => true | _ => false end) && tame_agg f ing rest
-      | PGroup _ body :: rest => tame_agg f true body && tame_agg f ing rest
-      | PWindow body :: rest => (negb ing || negb (has_agg f body)) && tame_agg f ing body && tame_agg f ing rest
-      | _ :: rest => tame_agg f ing rest
-      end
-    end.
-
-  (* F45: a group nested in the body of a group with a non-empty key is partitioned by its own key only.
+  (* ---- the known class.
+     F45: a group nested in the body of a group with a non-empty key is partitioned by its own key only.
      `tame_nest part p`: no group of p sits inside a non-empty partition *)
   Fixpoint tame_nest (fuel : nat) (part : option nat) (p : list pitem) : bool :=
     match fuel with
@@ -141,8 +120,7 @@ Section Flatten.
       end
     end.
 
-  Definition tame (fuel : nat) (part : option nat) (p : list pitem) : bool :=
-    tame_agg fuel (in_group part) p && tame_nest fuel part p.
+  Definition tame (fuel : nat) (part : option nat) (p : list pitem) : bool := tame_nest fuel part p.
 End Flatten.
 
 Arguments PSort {key}. Arguments PTake {key}. Arguments PWin {key}. Arguments POther {key}. Arguments PAgg {key}.
